@@ -1,6 +1,6 @@
 SPECIFICATION Spec
 CONSTANTS
-  EffTokens = {"pa", "st", "im", "cb"}
+  EffTokens = {"pa", "st", "im", "cb", "dm"}
   MaxEff = 1
   Modes = {"normal", "exc", "sysexit", "baseKbd", "recursion", "syntax"}
   FnModes = {"normal", "exc", "baseCustom"}
